@@ -76,6 +76,10 @@ TOPOS = {
                                                        (3, 'DISK_GB')],
                  sure=[(2, 'VCPU'), (3, 'VCPU'), (2, 'MEMORY_MB'),
                        (3, 'MEMORY_MB')]),
+    # three interchangeable children of one root (VFs of a NIC): permuted
+    # assignments of two groups give several candidates per provider pair
+    'three-vf': Topo('three-vf', {1: None, 2: 1, 3: 1, 4: 1},
+                     invs=[(4, 'VCPU')], sure=[(2, 'VCPU'), (3, 'VCPU')]),
     'two-i': TWO.but(sure=[(1, 'VCPU'), (3, 'DISK_GB')],
                      invs=[(2, 'VCPU'), (3, 'VCPU'), (2, 'DISK_GB')]),
 }
@@ -101,6 +105,13 @@ def QUERIES(tier):
         'u-member': Query({'': G({'VCPU': None, 'DISK_GB': 1},
                                  mem=[[1]])}),
         'u-notmember': Query({'': G({'VCPU': None}, fmem=[1])}),
+        # two classes that may sit on different providers of a tree, one of
+        # which the forbidden aggregate may remove (both orders: the
+        # implementation folds the classes in the order given)
+        'u-2rc-notmember': Query({'': G({'VCPU': None, 'DISK_GB': 1},
+                                        fmem=[1])}),
+        'u-2rc-notmember-rev': Query({'': G({'DISK_GB': 1, 'VCPU': None},
+                                            fmem=[1])}),
         'u-intree': Query({'': G({'VCPU': None, 'DISK_GB': 1}, tree=1)}),
         'u-rootreq': Query({'': G({'VCPU': None})}, rootreq=([T1], [])),
         '1+2-subtree': Query({'_1': G({'VCPU': 1}),
@@ -194,6 +205,8 @@ QUICK = [('flat', 'u-vcpu-disk', False), ('tree-t', 'u-req', False),
          ('flat-s', 'u+1-none', False), ('nest-s', 'u-vcpu-disk', False),
          ('tree-t', 'u-rootreq', False), ('two-i', '1+2-subtree', False),
          ('two', 'u-vcpu-disk', True), ('tree-a', 'u-notmember', False),
+         ('two-a', 'u-2rc-notmember', False),
+         ('two-a', 'u-2rc-notmember-rev', False),
          ('tree', 'u+1+2-nonadj', False), ('flat-t', 'u+D-rootreq', False),
          ('flat', 'u+D-root-notsharing', False), ('three', 'u-3rc', False),
          ('flat-a', 'u-mem+D', False), ('numa', 'A+B+C-2subtrees', False),
